@@ -434,10 +434,30 @@ fn verbatim_between<'a>(begin: syn::parse::ParseBuffer<'a>, end: ParseStream<'a>
     let end = end.cursor();
     let mut cursor = begin.cursor();
     let mut tokens = TokenStream::new();
+    // where to go on behind the invisible groups that have been entered
+    let mut resume = vec![];
     while cursor != end {
-        let (tt, next) = cursor.token_tree().unwrap();
-        tokens.extend(std::iter::once(tt));
-        cursor = next;
+        if cursor.eof() {
+            match resume.pop() {
+                Some(after) => cursor = after,
+                None => break,
+            }
+            continue;
+        }
+        match cursor.group(proc_macro2::Delimiter::None) {
+            // `end` lies inside this group: a `macro_rules!` fragment (`$i:item`) that the parser has entered
+            Some((inside, _, after)) if cursor < end && end < after => {
+                resume.push(after);
+                cursor = inside;
+            }
+            _ => match cursor.token_tree() {
+                Some((tt, next)) => {
+                    tokens.extend(std::iter::once(tt));
+                    cursor = next;
+                }
+                None => break,
+            },
+        }
     }
     tokens
 }
